@@ -36,7 +36,7 @@ pub const PROPS: &[Prop] = &[
         quick_runs: 80_000,
         thorough_runs: 2_000_000,
         rule: "seeded histories of 5-400 operations over {register, register_sigaction, register_signal_unchecked, register_unchecked, unregister(live|stale id), unregister_signal, deliver} on 2-6 catchable signals per history (thorough: incl. real-time signals), checked operation by operation against the reference model (per-signal ordered tag lists, global id set) and against the kernel-visible disposition (same handler, SA_RESTART|SA_SIGINFO, forever). Non-trivial: the history contains a removal followed by a delivery of the same signal and involves >= 2 signals. Distinct: by hash of the operation history.",
-        probes: &[(E_HIST_OPS, "history_operations"), (E_HIST_DELIVERIES, "deliveries_checked_against_model"), (E_REMOVALS, "successful_removals")],
+        probes: &[(E_HIST_OPS, "history_operations"), (E_HIST_DELIVERIES, "deliveries_checked_against_model"), (E_REMOVALS, "successful_removals"), (E_HIST_CROSSCHECK, "real_kernel_deliveries_cross_checked")],
         real: HIST_REAL,
         stub: HIST_STUB,
         assumptions: &["the EINTR observation is replaced by the SA_RESTART flag query (an asynchronous timer signal would be uncontrolled timing)", "SigId values cannot be forged through the public API, so 'never issued' ids are not generated"],
@@ -158,6 +158,13 @@ fn c05_universe(tier: Tier) -> Vec<i32> {
     v
 }
 
+extern "C" fn c05_foreign_plain(sig: i32) {
+    hist_action(9000 + sig as usize);
+}
+extern "C" fn c05_foreign_info(sig: i32, _i: *mut libc::siginfo_t, _c: *mut libc::c_void) {
+    hist_action(9000 + sig as usize);
+}
+
 fn c05(spec: &RunSpec) -> ! {
     start(spec);
     let uni = c05_universe(spec.tier);
@@ -173,6 +180,21 @@ fn c05(spec: &RunSpec) -> ! {
         2 => 40 + sim::work(80),
         _ => 100 + sim::work(300),
     } as usize;
+    // some signals already have a real handler of somebody else, installed with assorted flags
+    let mut foreign: BTreeSet<i32> = BTreeSet::new();
+    for s in sigs.iter() {
+        if sim::work(3) == 0 {
+            let fl = [0, libc::SA_RESETHAND, libc::SA_NODEFER, libc::SA_RESTART | libc::SA_RESETHAND, libc::SA_NODEFER | libc::SA_RESETHAND][sim::work(5) as usize];
+            let info = sim::work(2) == 0;
+            unsafe {
+                let mut sa: libc::sigaction = std::mem::zeroed();
+                sa.sa_sigaction = if info { c05_foreign_info as usize } else { c05_foreign_plain as usize };
+                sa.sa_flags = fl | if info { libc::SA_SIGINFO } else { 0 };
+                libc::sigaction(*s, &sa, std::ptr::null_mut());
+            }
+            foreign.insert(*s);
+        }
+    }
     let initial: Vec<(usize, i32)> = (1..=64).map(get_disposition).collect();
     let mut model: BTreeMap<i32, Vec<usize>> = BTreeMap::new();
     let mut taken: BTreeSet<i32> = BTreeSet::new();
@@ -266,7 +288,12 @@ fn c05(spec: &RunSpec) -> ! {
         for s in [touched, other] {
             ran().clear();
             let d = deliver(s, k as u64);
-            let want: Vec<usize> = model.get(&s).cloned().unwrap_or_default();
+            let mut want: Vec<usize> = model.get(&s).cloned().unwrap_or_default();
+            if foreign.contains(&s) {
+                // the pre-existing handler runs first (directly while the library has not taken
+                // the signal over, chained afterwards)
+                want.insert(0, 9000 + s as usize);
+            }
             if *ran() != want {
                 sim::report(
                     "C05",
@@ -280,6 +307,16 @@ fn c05(spec: &RunSpec) -> ! {
             }
             if taken.contains(&s) && !matches!(d, sim::Disposition::Handler(_)) {
                 sim::report("C05", "handler-uninstalled", &format!("after op {} signal {} (taken over earlier) no longer has the library's handler: {:?}", k, s, d), true);
+            }
+            // cross-validation of the delivery model: a real, kernel-made delivery of the same
+            // signal (raise() is synchronous on the calling thread) must run the same actions
+            if taken.contains(&s) && k % 4 == 0 {
+                ran().clear();
+                sim::count(E_HIST_CROSSCHECK, 1);
+                unsafe { libc::raise(s) };
+                if *ran() != want {
+                    sim::harness_error(&format!("delivery model and real kernel disagree: after op {} a real raise({}) ran {:?}, the simulated delivery ran {:?}", k, s, ran(), want));
+                }
             }
         }
         // kernel-visible disposition of every signal
@@ -296,6 +333,9 @@ fn c05(spec: &RunSpec) -> ! {
                 }
                 if fl & libc::SA_RESTART == 0 || fl & libc::SA_SIGINFO == 0 {
                     sim::report("C05", "disposition-flags", &format!("after op {} signal {} has sa_flags {:#x}: SA_RESTART|SA_SIGINFO expected", k, s, fl), true);
+                }
+                if fl & libc::SA_RESETHAND != 0 {
+                    sim::report("C05", "disposition-flags", &format!("after op {} signal {} has sa_flags {:#x} with SA_RESETHAND: the library's handler would be uninstalled by the first delivery", k, s, fl), true);
                 }
             } else if (h, fl) != initial[s as usize - 1] {
                 sim::report("C05", "untouched-signal-changed", &format!("after op {} the disposition of signal {} which was never registered changed to ({:#x},{:#x})", k, s, h, fl), true);
